@@ -15,7 +15,7 @@ does nothing.  Dicts are association lists (Basic.lean: alGet/alSet/alHas), list
 Supported subset (anything else raises Unsupported): assignments to locals / attributes / `self.D[k]` / `self.L[i]`,
 augmented assignment, `if/elif/else`, `x is not None` tests on optional parameters, early `return` as the last
 statement of an `if` body, `raise`, calls of other translated methods, `len`, `in`, `.pop`, `.append`,
-`Counter(self.D.values())` + `max(C.keys())` + `C[v]`, arithmetic and comparisons, and the one loop shape
+`Counter(self.D.values())` + `max(C.keys())` + `C[v]`, `sum(self.D.values())`, arithmetic and comparisons, and the one loop shape
 `while True: choice = random.choice(L); if random.random() < E: break` (compiled to a recursion over scripted draws).
 The attribute kinds and the parameter kinds are the only hand-supplied input (FIELDS, SIGS).
 """
@@ -127,6 +127,13 @@ class Method:
                     t = self.tmp("m")
                     return [f"{ind}let {t} ← PyRT.maxOf {a.func.value.id}"], t, "rat"
                 raise Unsupported("max of something else")
+            if isinstance(f, ast.Name) and f.id == "sum" and len(e.args) == 1:
+                a = e.args[0]
+                if isinstance(a, ast.Call) and isinstance(a.func, ast.Attribute) and a.func.attr == "values" and not a.args:
+                    p, t, k = self.expr(a.func.value, ind)
+                    if k in ("ddict:Rat", "dict:Rat"):
+                        return p, f"(PyRT.sumVals {t})", "rat"
+                raise Unsupported("sum of something else")
             if isinstance(f, ast.Name) and f.id == "Counter" and len(e.args) == 1:
                 a = e.args[0]
                 if isinstance(a, ast.Call) and isinstance(a.func, ast.Attribute) and a.func.attr == "values" and not a.args:
